@@ -76,3 +76,49 @@ Definition run_arg_mode (arg : option str) (default : N) : string :=
   | Some MEval => show_string "eval"
   | Some MAuto => show_string "auto"
   end.
+
+(* ---------- the _PyMain front end ---------- *)
+From Verif Require Import PyArgs.Main.
+
+Definition show_strs (l : list str) : string := show_list show_str l.
+
+Definition show_vals (r : res (list val)) : string :=
+  match r with
+  | Ok vs => show_obj [("ok", show_list show_val vs)]
+  | Err e => show_err e
+  end.
+
+Definition show_pkind (k : pkind) : string :=
+  match k with PEval => "eval" | PFile => "file" | PStdin => "stdin" end.
+
+Definition show_outcome (o : outcome) : string :=
+  match o with
+  | OCalls l => show_obj [("kind", show_string "calls");
+                          ("calls", show_list (fun c => match c with (fn, av, r) =>
+                              show_obj [("fn", show_str fn); ("argv", show_strs av); ("res", show_res r)] end) l)]
+  | OProgram k w a => show_obj [("kind", show_string "program"); ("pk", show_string (show_pkind k));
+                                ("what", show_str w); ("argv", show_vals a)]
+  | OJoined t => show_obj [("kind", show_string "joined"); ("text", show_str t)]
+  | OModule m a => show_obj [("kind", show_string "module"); ("m", show_str m); ("args", show_strs a)]
+  | ONotCallable => show_obj [("kind", show_string "notcallable")]
+  | OOther => show_obj [("kind", show_string "other")]
+  | OError => show_obj [("kind", show_string "error")]
+  end.
+
+Fixpoint head_table (t : list (str * (N * N * argspec))) (s : str) : headres :=
+  match t with
+  | [] => HFails
+  | (k, (tag, ck, sp)) :: r =>
+      if str_eqb s k then match tag with 0%N => HCallable (kind_of ck) sp | 1%N => HNotCallable | _ => HFails end
+      else head_table r s
+  end.
+
+(* _PyMain(main_args).run() *)
+Definition run_main (xs xc : list ch) (isatty : bool) (filenames joinok parsable modules digits : list str)
+                    (heads : list (str * (N * N * argspec))) (stdin : str)
+                    (t : list (str * (N * N * str))) (main_args : list str) : string :=
+  show_outcome (py_main (is_identifier xs xc) (table_oracle t)
+                        (mkEnv isatty (fun s => mem_str s filenames) (fun s => mem_str s joinok)
+                               (fun s => mem_str s parsable) (fun s => mem_str s modules)
+                               (head_table heads) (fun s => mem_str s digits))
+                        stdin main_args).
